@@ -284,6 +284,12 @@ impl World {
             }
             if conn.inbound_sent < cfg.max_inbound && (state == ST_CONNECTED || state == ST_PENDING_DISCONNECT) {
                 for i in 0..cfg.inbound.len() { out.push((Ev::Inbound(i as u8), 0)); }
+                if cfg.allow.inbound_pairs && conn.inbound_sent + 2 <= cfg.max_inbound {
+                    let plain = |p: &Pkt| matches!(p, Pkt::Publish(p) if p.topic_alias.is_none() && !p.topic.is_empty());
+                    for i in 0..cfg.inbound.len() { for j in 0..cfg.inbound.len() {
+                        if i != j && plain(&cfg.inbound[i]) && plain(&cfg.inbound[j]) { out.push((Ev::InboundPair(i as u8, j as u8), 1)); }
+                    } }
+                }
             }
             if cfg.allow.server_disconnect && state == ST_CONNECTED { out.push((Ev::ServerDisconnect, 1)); }
         }
